@@ -447,7 +447,7 @@ def gen_variants(path, funcs, only_func=None):
                 continue
             n += op(fn)
         if name == 'numpy-alias' and n:
-            t.body.insert(1 if isinstance(t.body[0], ast.ImportFrom) and t.body[0].module == '__future__' else 0,
+            t.body.insert(next((k + 1 for k, b in enumerate(t.body) if isinstance(b, ast.ImportFrom) and b.module == '__future__'), 0),
                           ast.parse('import numpy').body[0])
         if name == 'noise':
             t.body.append(ast.parse('import itertools as _unused_itertools\n\n\ndef _unused_helper(x):\n    return x\n').body[0])
